@@ -1,7 +1,7 @@
 (* C18 - weighted quantile (the repo's own algorithm): wq_missing - the cell is missing by the rule of
    C04 (any missing value OR WEIGHT under propagation, wherever it sorts); wq_scale - multiplying every
    weight by c > 0 leaves the result unchanged. *)
-From Coq Require Import ZArith QArith Qcanon List Bool Lia Lra Lqa ZifyBool.
+From Coq Require Import ZArith QArith Qcanon List Bool Lia Lqa ZifyBool.
 From Catii Require Import Cube.XStats Cube.XStatsSpec Cube.XStatsCell Cube.XStatsBase Cube.XStatsGroup.
 Import ListNotations.
 Open Scope Z_scope.
